@@ -175,8 +175,17 @@ const boundMul, boundAdd = 31, 14
 
 func (p *prop) Run(line string) core.Outcome {
 	f := strings.Fields(line)
-	if len(f) > 0 && f[0] == "cf" {
-		return p.runCf(line, f)
+	if len(f) > 0 {
+		switch f[0] {
+		case "cf":
+			return p.runCf(line, f)
+		case "ev":
+			return p.runEv(line, f)
+		case "fd":
+			return p.runFd(line, f)
+		case "ad":
+			return p.runAd(line, f)
+		}
 	}
 	if len(f) != 2 || f[0] != "rt" {
 		return core.Outcome{Impl: "bad-op"}
